@@ -32,6 +32,24 @@ func c19SharedInputs(c *Ctx) {
 	relF := ecs.NewRelationFilter(ecs.All(ids[3]), ecs.Entity{})
 	val0 := &G0{X: 7, Y: 9}
 	val4 := &G4{A: 1, B: 2, C: 3}
+	// template lists, passed to variadic parameters as list... (the callee then sees the caller's backing array);
+	// deliberately not in ID order and with the relation component not last
+	tBuild := []ecs.ID{ids[3], ids[4], ids[0]}
+	tBuildWith := []ecs.Component{{ID: ids[3], Comp: &RelA{}}, {ID: ids[4], Comp: val4}, {ID: ids[0], Comp: val0}}
+	tNew := []ecs.ID{ids[6], ids[1], ids[0]}
+	tAdd := []ecs.ID{ids[4], ids[2]}
+	tExAdd, tExRem := []ecs.ID{ids[6], ids[2]}, []ecs.ID{ids[1], ids[0]}
+	tRelEx := []ecs.ID{ids[5], ids[2]}
+	tAssign := []ecs.Component{{ID: ids[4], Comp: val4}, {ID: ids[0], Comp: val0}}
+	tmplIDs := map[string][]ecs.ID{"NewBuilder": tBuild, "NewEntity": tNew, "Add/Remove": tAdd, "Exchange add": tExAdd, "Exchange remove": tExRem, "Relations.Exchange add": tRelEx}
+	tmplComps := map[string][]ecs.Component{"NewBuilderWith": tBuildWith, "Assign/NewEntityWith": tAssign}
+	pristineIDs, pristineComps := map[string][]ecs.ID{}, map[string][]ecs.Component{}
+	for k, v := range tmplIDs {
+		pristineIDs[k] = append([]ecs.ID{}, v...)
+	}
+	for k, v := range tmplComps {
+		pristineComps[k] = append([]ecs.Component{}, v...)
+	}
 	var worldIdx sync.Map // *ecs.World -> index; filled before the worlds run
 	counts := make([][3]atomic.Int64, goroutines*2)
 	cbAll := listener.NewCallback(func(w *ecs.World, e ecs.EntityEvent) {
@@ -56,7 +74,60 @@ func c19SharedInputs(c *Ctx) {
 		w.SetListener(&disp)
 		alive := []ecs.Entity{}
 		for i := 0; i < 220; i++ {
-			switch r.Intn(8) {
+			switch r.Intn(14) {
+			case 8: // builders fed from the shared template lists
+				if len(alive) > 0 {
+					t := alive[r.Intn(len(alive))]
+					if r.Chance(0.5) {
+						alive = append(alive, ecs.NewBuilder(w, tBuild...).WithRelation(wids[3]).New(t))
+					} else {
+						alive = append(alive, ecs.NewBuilderWith(w, tBuildWith...).WithRelation(wids[3]).New(t))
+					}
+					if r.Chance(0.3) {
+						b := ecs.NewBuilder(w, tBuild...).WithRelation(wids[3])
+						b.NewBatch(2, t)
+						q := w.Query(ecs.All(tBuild...))
+						*log = append(*log, fmt.Sprint("nb", q.Count()))
+						q.Close()
+					}
+				}
+			case 9:
+				alive = append(alive, w.NewEntity(tNew...))
+				if r.Chance(0.3) {
+					alive = append(alive, w.NewEntityWith(tAssign...))
+				}
+			case 10:
+				if len(alive) > 0 {
+					e := alive[r.Intn(len(alive))]
+					switch {
+					case !w.Has(e, wids[4]) && !w.Has(e, wids[2]):
+						w.Add(e, tAdd...)
+					case w.Has(e, wids[4]) && w.Has(e, wids[2]):
+						w.Remove(e, tAdd...)
+					case !w.Has(e, wids[4]) && !w.Has(e, wids[0]):
+						w.Assign(e, tAssign...)
+					}
+				}
+			case 11:
+				if len(alive) > 0 {
+					e := alive[r.Intn(len(alive))]
+					if w.Has(e, wids[1]) && w.Has(e, wids[0]) && !w.Has(e, wids[6]) && !w.Has(e, wids[2]) {
+						w.Exchange(e, tExAdd, tExRem)
+						m := w.Mask(e)
+						*log = append(*log, fmt.Sprint("x", m.TotalBitsSet()))
+					}
+				}
+			case 12:
+				bf := ecs.All(tExRem...).Without(tExAdd...)
+				*log = append(*log, fmt.Sprint("bx", w.Batch().Exchange(&bf, tExAdd, tExRem)))
+			case 13:
+				if len(alive) > 1 {
+					e, t := alive[r.Intn(len(alive))], alive[r.Intn(len(alive))]
+					if !w.Has(e, wids[5]) && !w.Has(e, wids[3]) && !w.Has(e, wids[2]) {
+						w.Relations().Exchange(e, tRelEx, nil, wids[5], t)
+						*log = append(*log, fmt.Sprint("rx", w.Relations().Get(e, wids[5]) == t))
+					}
+				}
 			case 0, 1:
 				sub := []ecs.ID{}
 				for _, j := range []int{0, 1, 2, 4, 6} {
@@ -154,6 +225,19 @@ func c19SharedInputs(c *Ctx) {
 		c.Fail(Violation{Kind: "crosstalk.sharedvalue", Msg: "a component value passed to Set/Assign/NewEntityWith was modified by the library"}, nil)
 		return
 	}
+	for k, v := range tmplIDs {
+		if fmt.Sprint(v) != fmt.Sprint(pristineIDs[k]) {
+			c.Fail(Violation{Kind: "crosstalk.sharedinput.mutated", Msg: fmt.Sprintf("the ID list that all worlds passed to %s was modified by the library: every other world was handed a different argument from then on", k)}, nil)
+			return
+		}
+	}
+	for k, v := range tmplComps {
+		if fmt.Sprint(v) != fmt.Sprint(pristineComps[k]) {
+			c.Fail(Violation{Kind: "crosstalk.sharedinput.mutated", Msg: fmt.Sprintf("the component list that all worlds passed to %s was modified by the library: every other world was handed a different argument from then on", k)}, nil)
+			return
+		}
+	}
+	c.Cov.N["shared_template_lists_compared"] += len(tmplIDs) + len(tmplComps)
 	c.AddEvaluations(goroutines*2 - 1)
 	c.Sample(map[string]any{"mode": "sharedinputs", "case": c.Case, "worlds": goroutines, "events_world0": counts[0][0].Load()})
 	c.NonTrivial(HashStr(fmt.Sprint("c19si", c.Seed, c.Case)))
